@@ -84,7 +84,7 @@ def evb_obligation(mode, prefix, final, cb=0, final_max=8, extra_defs=(), ndebug
               unwindset=evb_unwindset(copy, rec),
               cbmc=["--max-field-sensitivity-array-size", str(VP_OBJ), "--object-bits", "10"],
               timeout=timeout, mem_gb=mem_gb, ndebug=ndebug)
-    if solver is None and (nm in KISSAT_NAMES or any(k == "MCAST" for _, k, _ in prefix) or (cb and fk in ("PULLUP", "EXPAND"))):
+    if solver is None and (nm in KISSAT_NAMES or any(k == "MCAST" for _, k, _ in prefix) or ((cb or ndebug) and fk in ("PULLUP", "EXPAND"))):
         solver = "kissat"      # minisat2 occasionally needs > 900 s on these small instances (measured), kissat 5-60 s
     if solver: ob["solver"] = solver
     if expect_fail: ob["expect_fail"] = expect_fail
